@@ -13,6 +13,51 @@ fn main() {
         println!("AVX-MODELS cases={} mismatches={}", run, bad);
         exit(if bad == 0 { 0 } else { 1 });
     }
+    if path == "--enumerate" {
+        // debruijn-replay --enumerate <spec.json>: spec = {"harness": "..", "domains": [{"bytes": 8, "values": [0, 1, 2]}, ..]} - one
+        // domain per value the contract function draws, in draw order. Runs the contract function on the REAL crate for every
+        // combination (a bounded, enumerated check); stops at the first combination that violates an obligation.
+        let spec_path = std::env::args().nth(2).expect("usage: debruijn-replay --enumerate <spec.json>");
+        let txt = std::fs::read_to_string(&spec_path).expect("cannot read spec file");
+        let v: serde_json::Value = serde_json::from_str(&txt).expect("bad json");
+        let harness = v["harness"].as_str().expect("harness").to_string();
+        let h0 = harness.trim_start_matches("verif::").to_string();
+        let h1 = h0.replacen("::verif::", "::", 1);
+        let doms: Vec<(usize, Vec<u64>)> = v["domains"].as_array().expect("domains").iter()
+            .map(|d| (d["bytes"].as_u64().unwrap() as usize, d["values"].as_array().unwrap().iter().map(|x| x.as_u64().unwrap()).collect()))
+            .collect();
+        let mut idx = vec![0usize; doms.len()];
+        let mut cases: u64 = 0;
+        std::panic::set_hook(Box::new(|_| {}));
+        loop {
+            let inputs: Vec<Vec<u8>> = doms.iter().zip(idx.iter())
+                .map(|((nb, vals), &i)| vals[i].to_le_bytes()[..*nb].to_vec())
+                .collect();
+            cases += 1;
+            let shown = serde_json::to_string(&inputs).unwrap();
+            let hh = h1.clone();
+            let r = std::panic::catch_unwind(move || debruijn::verif::replay(hh.as_str(), inputs));
+            match r {
+                Err(_) => { println!("ENUM reproduced harness={} inputs={} violated: the real code panicked", harness, shown); exit(1); }
+                Ok(Err(e)) => { println!("ENUM unusable harness={} {}", harness, e); exit(2); }
+                Ok(Ok(failed)) => {
+                    if !failed.is_empty() {
+                        println!("ENUM reproduced harness={} inputs={} violated: {}", harness, shown, failed.join(" | "));
+                        exit(1);
+                    }
+                }
+            }
+            // next combination
+            let mut k = 0;
+            loop {
+                if k == idx.len() { println!("ENUM clean harness={} cases={}", harness, cases); exit(0); }
+                idx[k] += 1;
+                if idx[k] < doms[k].1.len() { break; }
+                idx[k] = 0;
+                k += 1;
+            }
+        }
+    }
     let txt = std::fs::read_to_string(&path).expect("cannot read replay file");
     let v: serde_json::Value = serde_json::from_str(&txt).expect("bad json");
     let harness = v["harness"].as_str().expect("harness").to_string();
